@@ -975,6 +975,8 @@ fn run<A: ArchOps>(lines: Vec<String>, hang_ms: u64) {
                     }
                 })
             }
+            // evaluated by the model driver only (specification side of C03)
+            "msproc" => "skip".to_string(),
             _ => format!("unknown-op {}", op),
         };
         BUSY_SINCE_MS.store(0, Ordering::Relaxed);
